@@ -171,7 +171,7 @@ def run(ctx):
                 for bh in (False, True):
                     one(ctx, ch, mn, mx, None, bh, items)
     rep.extra['exhaustive_chain_length'] = L
-    for i in range(ctx.budget(1500, 40000)):
+    for i in range(ctx.budget(1500, 200000)):
         r = rng.fork(i)
         ch = gen.rand_chain(r, 10)
         mn = r.range(1, 4)
@@ -182,7 +182,7 @@ def run(ctx):
         rep.dist('c02_chain_len', len(ch))
         rep.sample({'chain': gen.canon_chain(ch), 'min': mn, 'max': mx, 'depth': d, 'break_halves': bh}, cap=5)
     # the standardisation step on its own (incl. strings outside the component alphabet)
-    for i in range(ctx.budget(300, 5000)):
+    for i in range(ctx.budget(300, 25000)):
         r = rng.fork(100000 + i)
         comps = [r.choice(gen.COMPS + ['ALL']) for _ in range(r.range(0, 9))]
         items.append((impl.line_aliquot_std(comps), impl.impl_aliquot_std(comps), {'op': 'standardize', 'comps': comps}))
